@@ -227,6 +227,10 @@ impl FileLogWriterBuilder {
             return Err(FlexiLoggerError::OutputBadDirectory);
         }
 
+        // the start time in the file names is the time when the writer is built,
+        // not the time of the first write
+        self.file_spec.fix_timestamp();
+
         #[cfg(feature = "async")]
         let cleanup_in_background_thread = if let WriteMode::AsyncWith {
             pool_capa: _,
